@@ -1163,7 +1163,7 @@ def judge_document(gs, body, root: str, field: str, cfg: dict, registered: dict)
     out = []
     errors = graphql.validate(gs, doc)
     if errors:
-        out.append("validation: " + "; ".join(e.message for e in errors[:3]))
+        out.append("validation: " + "; ".join(e.message for e in errors))
     ops = [d for d in doc.definitions if isinstance(d, graphql.OperationDefinitionNode)]
     if len(ops) != 1 or len(doc.definitions) != len(ops) + len([d for d in doc.definitions if isinstance(d, graphql.FragmentDefinitionNode)]):
         out.append(f"{len(ops)} operation definitions")
@@ -1480,9 +1480,8 @@ def run_oracle_history(case: dict, draws: int, max_ops: int = 2, collect=None) -
 
 def report_oracle_history(chk, case, fails):
     for f in fails:
-        plain = [x.split(") ", 1)[-1] if x.startswith("(use #") else x for x in f["complaints"]]
-        region = "null_for_unsupported_scalar" if plain == [NULL_UNSUPPORTED] else None
-        chk.fail("GraphQL case drawn later from the same operation does not respect the configuration in effect: " + "; ".join(f["complaints"])[:300], {"history": case, **f}, region=region)
+        region = oracle_region(f["complaints"])
+        chk.fail("GraphQL case drawn from a kept operation object (schema[type][field]) does not respect the configuration in effect: " + "; ".join(f["complaints"])[:300], {"history": case, **f}, region=region)
 
 
 def stage_oracle_histories(chk, n, draws, deadline=None):
@@ -1490,8 +1489,8 @@ def stage_oracle_histories(chk, n, draws, deadline=None):
 
     done = 0
     for _ in range(n):
-        if deadline is not None and time.time() > deadline:
-            chk.notes.append(f"oracle_histories stopped at the time budget after {done} histories")
+        if deadline is not None and (time.time() > deadline or len(chk.failures) >= 6):
+            chk.notes.append(f"boosted oracle_histories stopped after {done} histories (time budget / enough failing inputs)")
             break
         case = oracle_history_case(chk.rng)
         report_oracle_history(chk, case, run_oracle_history(case, draws, collect=chk.count))
@@ -1505,9 +1504,24 @@ def stage_oracle_histories(chk, n, draws, deadline=None):
     }
 
 
+OVERLAP_RE = re.compile(r"Fields '\w+' conflict because subfields .*? conflict because they return conflicting types '[^']*' and '[^']*'\. Use different aliases on the fields to fetch both if this was intentional\.")
+
+
+def oracle_region(complaints: list[str]) -> str | None:
+    """Listed regions of the ORACLE stage (foreign code, no theorem)."""
+    plain = [x.split(") ", 1)[-1] if x.startswith("(use #") else x for x in complaints]
+    if plain == [NULL_UNSUPPORTED]:
+        return "null_for_unsupported_scalar"
+    if len(plain) == 1 and plain[0].startswith("validation: "):
+        rest = OVERLAP_RE.sub("", plain[0][len("validation: ") :]).replace(";", "").strip()
+        if rest == "":
+            return "nested_overlapping_fields"
+    return None
+
+
 def report_oracle(chk, case, fails):
     for f in fails:
-        region = "null_for_unsupported_scalar" if f["complaints"] == [NULL_UNSUPPORTED] else None
+        region = oracle_region(f["complaints"])
         chk.fail("generated GraphQL case is not valid for the schema / does not target its field: " + "; ".join(f["complaints"])[:300], {**case, **f}, region=region)
 
 
@@ -1517,7 +1531,7 @@ def stage_oracle(chk, n_schemas, draws, max_ops, deadline=None):
     rng = chk.rng
     total = 0
     for _ in range(n_schemas):
-        if deadline is not None and (time.time() > deadline or len(chk.failures) >= 12):
+        if deadline is not None and (time.time() > deadline or len(chk.failures) >= 6):
             chk.notes.append(f"boosted oracle search stopped after {total} schemas (time budget / enough failing inputs)")
             break
         case = oracle_case(rng)
@@ -1543,6 +1557,9 @@ def witness_fails(w: dict) -> bool:
     if kind == "lookups":
         schema = load_sdl(w["sdl"])
         return impl_lookups(schema, w["history"]) != expected_lookups(w["sdl"], w["history"])
+    if kind == "oracle_overlap":
+        fails = run_oracle_case(w["case"], 120, 5)
+        return any(oracle_region(f["complaints"]) == "nested_overlapping_fields" for f in fails)
     if kind == "oracle_null":
         fails = run_oracle_case(w["case"], 60, 10)
         return any(NULL_UNSUPPORTED in f["complaints"] for f in fails)
@@ -1598,18 +1615,18 @@ def run(chk: core.Check):
     rng = chk.rng
 
     corpus = [json.loads(p.read_text()) for p in sorted((core.VERIF / "corpus" / "C20").glob("*.json"))]
-    n = 160 if quick else 1500
+    n = 130 if quick else 1500
     sel = [c["selection"] for c in corpus if "selection" in c] + [selection_case(rng) for _ in range(n)]
     stage_selection(chk, sel)
 
     look = [c["lookups"] for c in corpus if "lookups" in c]
-    for _ in range(80 if quick else 800):
+    for _ in range(60 if quick else 800):
         g = gen_sdl(rng)
         look.append({"sdl": g["sdl"], "history": gen_history(rng, raw_facts(load_sdl(g["sdl"]).raw_schema))})
     stage_lookups(chk, look)
 
     calls = []
-    for _ in range(36 if quick else 300):
+    for _ in range(30 if quick else 300):
         g = gen_sdl(rng)
         calls.append(
             {
@@ -1622,7 +1639,7 @@ def run(chk: core.Check):
         )
     stage_strategy_call(chk, calls)
     hist = [c["call_history"] for c in corpus if "call_history" in c]
-    for _ in range(30 if quick else 300):
+    for _ in range(24 if quick else 300):
         g = gen_sdl(rng)
         hist.append({"sdl": g["sdl"], "config": gen_config(rng), "op_index": rng.randrange(50), "events": gen_events(rng)})
     stage_call_histories(chk, hist)
@@ -1633,7 +1650,7 @@ def run(chk: core.Check):
         chk.known(f, witness_fails(f["witness"]))
 
     # a broken proof / tie multiplies the search by 10, but the whole check stays within a wall-clock budget and the
-    # search stops once it has a dozen concrete failing inputs
+    # search stops once it has half a dozen concrete failing inputs
     import time
 
     boost = 10 if chk.broken else 1
@@ -1647,8 +1664,8 @@ def run(chk: core.Check):
             chk.seen({"oracle_history": c["oracle_history"]}, True)
     # histories first: they are the only place where a configuration remembered by an operation object can show
     if quick:
-        stage_oracle_histories(chk, 14 * boost, 10, None if deadline is None else deadline - 60)
-        stage_oracle(chk, 34 * boost, 12, 3, deadline)
+        stage_oracle_histories(chk, 12 * boost, 10, None if deadline is None else deadline - 60)
+        stage_oracle(chk, 28 * boost, 12, 3, deadline)
     else:
         stage_oracle_histories(chk, 150 * boost, 20, None if deadline is None else deadline - 300)
         stage_oracle(chk, 300 * boost, 25, 4, deadline)
